@@ -3,7 +3,9 @@
 validation module, all parameters being tracked (so that slot `i` of the tracked history is the
 parameter value after the update of iteration `i`).
 
-Inputs: the period `c`, `n`, the initial parameters, the outcome `(criterion, improved, stop)` the
+Inputs: the period `c`, `n`, `limit` = the number of iterations the NaN rule (C18) allows on this
+program (`n` when the reference parameters stay finite, `k+1` when the update of iteration `k` is
+the first to produce NaN parameters, `0` for NaN initial parameters), the initial parameters, the outcome `(criterion, improved, stop)` the
 module returned at each of its calls (call order), the parameters each call received, and the
 observation.  For the built-in `ValidationLoss` the outcomes are *derived from the observed
 criterion values by the wording of the property* (`SolveAux.vlOutcomes`): improvement = strict new minimum,
@@ -21,7 +23,7 @@ def SolveAux.lastIdx (p : Nat → Bool) : Nat → Option Nat
   | 0 => none
   | k + 1 => if p k then some k else SolveAux.lastIdx p k
 
-def holdsC19 (c n : Nat) (θ0 : Params) (outcomes : List SolveAux.Outcome) (calls : List Params)
+def holdsC19 (c n limit : Nat) (θ0 : Params) (outcomes : List SolveAux.Outcome) (calls : List Params)
     (rejected : Bool) (o : Obs) : Option String :=
   if n == 0 then none
   else if rejected then some "valid-program-rejected"
@@ -41,7 +43,7 @@ def holdsC19 (c n : Nat) (θ0 : Params) (outcomes : List SolveAux.Outcome) (call
         "criterion-recorded-and-carried-forward"),
       ((List.range n).all (fun i => i < o.iters || crit[i]? == some (some 0)),
         "criterion-untouched-after-stop"),
-      (o.iters == (match firstStop with | some j => c * j + 1 | none => n),
+      (o.iters == (match firstStop with | some j => c * j + 1 | none => limit),
         "stops-right-after-first-request"),
       (o.best == some (match lastImp with | some j => calls.getD j [] | none => θ0),
         "best-parameters-of-last-improving-invocation")]
@@ -50,18 +52,23 @@ def holdsC19 (c n : Nat) (θ0 : Params) (outcomes : List SolveAux.Outcome) (call
 def SolveAux.trailingFalse (l : List Bool) : Nat := (l.reverse.takeWhile (fun b => !b)).length
 
 /-- The outcomes the built-in validation loss must produce on the criterion values `vs`
-    (call order), by the wording of the property. -/
-def SolveAux.vlOutcomes (patience : Nat) (early : Bool) (vs : List Rat) : List SolveAux.Outcome :=
+    (call order, `none` = NaN), by the wording of the property: an improvement is a strict new
+    minimum (a NaN criterion is never one, and never becomes the minimum); a stop is requested when
+    early stopping is on and at least `patience` consecutive invocations immediately before did
+    not improve. -/
+def SolveAux.vlOutcomes (patience : Nat) (early : Bool) (vs : List Val) : List SolveAux.Outcome :=
   let improved := (List.range vs.length).map (fun j =>
-    (vs.take j).all (fun x => decide (vs.getD j 0 < x)))
+    match vs.getD j none with
+    | none => false
+    | some v => (vs.take j).all (fun x => match x with | none => true | some y => decide (v < y)))
   (List.range vs.length).map (fun j =>
-    (some (vs.getD j 0), improved.getD j false,
+    (vs.getD j none, improved.getD j false,
       early && decide (patience ≤ SolveAux.trailingFalse (improved.take j))))
 
 /-- `ValidationLoss`: the criterion of call `j` is the loss of the parameters it received on the
-    `j`-th batch of its own generators (`expected`, `vbatchesObs = vbatchesRef`), and the loop
-    follows the outcomes derived from the criteria. -/
-def holdsC19VL (c n : Nat) (θ0 : Params) (patience : Nat) (early : Bool)
+    `j`-th batch of its own generators (`expected`, `vbatchesObs = vbatchesRef`) — NaN when those
+    parameters are —, and the loop follows the outcomes derived from the criteria. -/
+def holdsC19VL (c n limit : Nat) (θ0 : Params) (patience : Nat) (early : Bool)
     (expected : List Val) (vbatchesObs vbatchesRef : List Batch) (calls : List Params)
     (rejected : Bool) (o : Obs) : Option String :=
   if n == 0 then none
@@ -70,12 +77,10 @@ def holdsC19VL (c n : Nat) (θ0 : Params) (patience : Nat) (early : Bool)
   else
     let J := calls.length
     let crits : List Val := (List.range J).map (fun j => ((o.critH.getD [])[c * j]?).getD none)
-    if crits.any (fun v => v.isNone) || expected.any (fun v => v.isNone) then none
-    else
-      match SolveAux.firstFail [
-        (vbatchesObs == vbatchesRef.take J, "validation-draws-from-its-own-generators"),
-        (crits == expected, "criterion-is-the-loss-on-its-own-batch")] with
-      | some cl => some cl
-      | none => holdsC19 c n θ0 (SolveAux.vlOutcomes patience early (crits.map (fun v => v.getD 0))) calls rejected o
+    match SolveAux.firstFail [
+      (vbatchesObs == vbatchesRef.take J, "validation-draws-from-its-own-generators"),
+      (crits == expected, "criterion-is-the-loss-on-its-own-batch")] with
+    | some cl => some cl
+    | none => holdsC19 c n limit θ0 (SolveAux.vlOutcomes patience early crits) calls rejected o
 
 end Jinns.Holds
